@@ -15,6 +15,13 @@
 //!     /repo f4e2819): two DIFFERENT coordinates on the split axis are equally near the first split
 //!     target after the f32 subtraction rounds, and sit in different blocks of the cut search's fold;
 //!     `shape` 0 is the N11 input verbatim, `shape` s >= 1 a randomised variant at scale 2^(s-1).
+//!     Streams `s<b><E>` / `S<b><E>` (b ∈ g x l): the integer cloud of stream `b` with every coordinate
+//!     multiplied by 2^-E (E <= 149: down to the f32 SUBNORMAL range, where a coordinate k * 2^-149 has
+//!     no spare bit: halving or otherwise rescaling it rounds, DISTINCT coordinates then tie) or by 2^+E
+//!     (E <= 100).  All coordinates stay exactly representable in f32 and f64 (small integers times a
+//!     power of two), so the premise of the property holds as at scale 1.  Base `l` = small-integer
+//!     lattice around the first split target (two clusters on alternating indices and a few points
+//!     just left / right of the target in different 4096-blocks of the fold).
 //! * `dual <kind> <nx> <ny> <nz> <seed> <digest|->`  the tools' dual graph, CSR arrays byte-wise.
 //! * `parsum gen <seed> <n> <lo> <hi>` | `parsum lit <n> <v…>`  rayon's own `sum`, `fold/reduce`,
 //!     `fold_with/reduce_with`, `filter/count`, `map/collect` under several pools and `with_max_len`
@@ -22,6 +29,10 @@
 //! * `bbox <dim> <seed> <n> <lo> <hi>`  the real `BoundingBox::from_points`.
 //! * `rcbsplit <seed> <n> <lo> <hi> <wmax> <min> <max>`  the real `par_rcb_split` (hook), one
 //!     evaluation of its 4-tuple fold/reduce, against `parNearest` over several split trees.
+//! * `rcbsplits <e> <seed> <n> <lo> <hi> <wmax> <min> <max>`  the same with coordinates, `min` and
+//!     `max` multiplied by 2^e (-149 <= e <= 100): the count, the weight, the pivot and the position of
+//!     the cut are those of the integer computation whenever the targets are exactly representable
+//!     (always when e >= -147, otherwise when min and max are multiples of 4); else not judged (`skip`).
 //! * `mjsplit <seed> <n> <wmax> <k> {<num> <den>}*k`  the real `compute_split_positions` (hook),
 //!     against `mjSplit` over several split trees.
 //! * `frame <dim> <n> <seed> <shape> <digest|->`  the oriented-bounding-box frame itself (hook
@@ -107,6 +118,34 @@ struct Cloud {
     /// stream `t`: indices of two points with different coordinates that are equally near the first
     /// split target (after rounding) and lie in different blocks of the fold
     tie: Option<(usize, usize)>,
+    /// every coordinate is multiplied by 2^scale (0: the integers themselves)
+    scale: i32,
+}
+
+/// `g` `x` `t` `l`-less plain streams, or `s<b><E>` / `S<b><E>` with b ∈ g x l: (base, exponent of the scale).
+fn parse_stream(s: &str) -> Option<(&'static str, i32)> {
+    match s {
+        "g" => return Some(("g", 0)),
+        "x" => return Some(("x", 0)),
+        "t" => return Some(("t", 0)),
+        _ => {}
+    }
+    let b = s.as_bytes();
+    if b.len() < 3 || b.len() > 5 || !b[2..].iter().all(|c| c.is_ascii_digit()) {
+        return None;
+    }
+    let base = match b[1] {
+        b'g' => "g",
+        b'x' => "x",
+        b'l' => "l",
+        _ => return None,
+    };
+    let e: i32 = s[2..].parse().ok()?;
+    match b[0] {
+        b's' if e <= 149 => Some((base, -e)),
+        b'S' if e <= 100 => Some((base, e)),
+        _ => None,
+    }
 }
 
 /// Decides `ExactSums` for the frame computation: integral centroid, all sums of
@@ -223,7 +262,7 @@ fn generic_cloud(seed: u64, dim: usize, n: usize, shape: usize, wmode: usize) ->
     }
     let ws = gen_weights(&mut rng, n, wmode);
     let exact = exact_frame(&pts, dim);
-    Cloud { pts, ws, exact_frame: exact, tie: None }
+    Cloud { pts, ws, exact_frame: exact, tie: None, scale: 0 }
 }
 
 /// Stream (ii): "exact-frame" clouds. Offsets come in full sign orbits around an
@@ -258,7 +297,7 @@ fn exact_cloud(seed: u64, dim: usize, n: usize, shape: usize, wmode: usize) -> C
     rng.shuffle(&mut pts);
     let ws = gen_weights(&mut rng, pts.len(), wmode);
     let exact = exact_frame(&pts, dim);
-    Cloud { pts, ws, exact_frame: exact, tie: None }
+    Cloud { pts, ws, exact_frame: exact, tie: None, scale: 0 }
 }
 
 /// Stream (iii): rounded-distance ties across block seams (defect N11, fixed by /repo f4e2819).
@@ -337,7 +376,84 @@ fn tie_cloud(seed: u64, dim: usize, n: usize, shape: usize, wmode: usize) -> Clo
         tie = Some((a, b));
     }
     let ws = gen_weights(&mut rng, n, wmode);
-    Cloud { pts, ws, exact_frame: false, tie }
+    Cloud { pts, ws, exact_frame: false, tie, scale: 0 }
+}
+
+/// Stream base `l`: a lattice of SMALL integers around the first split target of Rcb (meant to be
+/// scaled into the f32 subnormal range, where k * 2^-149 has no bit to spare).  Axis 0 spans
+/// `[c, c + 2M]`; even indices hold a left cluster `c + [0, M - g]`, odd indices a right cluster
+/// `c + [M + g, 2M]` (so the first target `c + M` balances the weights), and a few "near" points with
+/// coordinates in `c + M - g + 1 .. c + M + g - 1` (just left of, on, and just right of the target:
+/// after a lossy rescaling several DIFFERENT ones are equally near) sit in sibling sub-blocks of
+/// rayon's halving of the index range and in earlier blocks.  `shape` 0: the input of seed
+/// C06-r3-2's demonstration (M = 4, points 100 and 5000 at 3 and 5); `shape` s >= 1: randomised,
+/// M from a list indexed by s.
+fn lattice_cloud(seed: u64, dim: usize, n: usize, shape: usize, wmode: usize) -> Cloud {
+    let mut rng = Rng::new(seed ^ 0x1a77_1ce5);
+    let mut pts = vec![[0i64; 3]; n];
+    let mut tie = None;
+    if shape == 0 && n > 5000 {
+        for (i, p) in pts.iter_mut().enumerate() {
+            p[0] = if i % 2 == 0 { (i % 3) as i64 } else { 6 + (i % 3) as i64 };
+            p[1] = (i % 7) as i64;
+        }
+        pts[100][0] = 3;
+        pts[5000][0] = 5;
+        tie = Some((100, 5000));
+    } else if n >= 16 {
+        let m = [4i64, 4, 5, 6, 8, 9, 16, 31, 64, 100, 1000, 4096][shape % 12];
+        let g = if m >= 8 && rng.chance(1, 2) { 3 } else { 2 }.min(m - 1);
+        let c = if rng.chance(1, 3) { 0 } else { rng.range(-9, 9) };
+        for (i, p) in pts.iter_mut().enumerate() {
+            p[0] = if i % 2 == 0 { c + rng.range(0, m - g) } else { c + m + g + rng.range(0, m - g) };
+            for (a, x) in p.iter_mut().enumerate().take(dim).skip(1) {
+                *x = if a == 1 { (i % 7) as i64 } else { rng.range(0, 5) };
+            }
+        }
+        let near = |rng: &mut Rng| c + m + rng.range(-(g - 1), g - 1);
+        // the pair: sibling sub-blocks at depth q of rayon's halving (left half = len / 2)
+        let qmax = if n / 8 >= 4096 { 3 } else if n / 4 >= 4096 { 2 } else { 1 };
+        let q = 1 + rng.usize(qmax);
+        let (mut s, mut e) = (0usize, n);
+        for _ in 0..q - 1 {
+            let mid = s + (e - s) / 2;
+            if rng.chance(1, 2) {
+                e = mid
+            } else {
+                s = mid
+            }
+        }
+        let mid = s + (e - s) / 2;
+        let a = s + rng.usize(mid - s);
+        let b = mid + rng.usize(e - mid);
+        // two DIFFERENT coordinates, one strictly left of the target and one right of it, or both right
+        let (xa, xb) = loop {
+            let (xa, xb) = (near(&mut rng), near(&mut rng));
+            if xa != xb {
+                break (xa, xb);
+            }
+        };
+        pts[a][0] = xa;
+        pts[b][0] = xb;
+        let mut used = vec![a, b];
+        for _ in 0..rng.usize(4) {
+            let x = rng.usize(n);
+            if !used.contains(&x) {
+                pts[x][0] = near(&mut rng);
+                used.push(x);
+            }
+        }
+        // the bounding box is [c, c + 2M] exactly
+        let mut free = (0..n).rev().filter(|i| !used.contains(i));
+        if let (Some(i), Some(j)) = (free.next(), free.next()) {
+            pts[i][0] = c + 2 * m;
+            pts[j][0] = c;
+        }
+        tie = Some((a, b));
+    }
+    let ws = gen_weights(&mut rng, n, wmode);
+    let exact = exact_frame(&pts, dim);
+    Cloud { pts, ws, exact_frame: exact, tie, scale: 0 }
 }
 
 // ------------------------------------------------------------------ running the partitioners
@@ -374,13 +490,15 @@ fn initial_partition(n: usize, k: usize, mode: usize) -> Vec<usize> {
 macro_rules! run_dim {
     ($name:ident, $frames:ident, $D:expr, $P:ty) => {
         fn $name(cloud: &Cloud, prm: &Params, threads: usize) -> Outcome {
+            // (a power of two: the product is exact, integers below 2^24 stay exact in f32 down to 2^-149)
+            let unit = f64::powi(2.0, cloud.scale);
             let points: Vec<$P> = cloud
                 .pts
                 .iter()
                 .map(|p| {
                     let mut q = <$P>::zeros();
                     for k in 0..$D {
-                        q[k] = p[k] as f64;
+                        q[k] = p[k] as f64 * unit;
                     }
                     q
                 })
@@ -438,13 +556,15 @@ macro_rules! run_dim {
 
         /// The matrix of the oriented-bounding-box frame (hook), as bit patterns.
         fn $frames(cloud: &Cloud, threads: usize) -> Option<Vec<u64>> {
+            // (a power of two: the product is exact, integers below 2^24 stay exact in f32 down to 2^-149)
+            let unit = f64::powi(2.0, cloud.scale);
             let points: Vec<$P> = cloud
                 .pts
                 .iter()
                 .map(|p| {
                     let mut q = <$P>::zeros();
                     for k in 0..$D {
-                        q[k] = p[k] as f64;
+                        q[k] = p[k] as f64 * unit;
                     }
                     q
                 })
@@ -516,11 +636,14 @@ fn part_case(
     pools: Vec<usize>,
     reps: usize,
 ) -> PartResult {
-    let cloud = match stream.as_str() {
+    let (base, scale) = parse_stream(&stream).unwrap_or(("g", 0));
+    let mut cloud = match base {
         "x" => exact_cloud(seed, dim, n, shape, wmode),
         "t" => tie_cloud(seed, dim, n, shape, wmode),
+        "l" => lattice_cloud(seed, dim, n, shape, wmode),
         _ => generic_cloud(seed, dim, n, shape, wmode),
     };
+    cloud.scale = scale;
     let prm = Params { algo: algo.clone(), p1, p2 };
     let mut counts = vec![];
     let reference = run_algo(&cloud, dim, &prm, 1);
@@ -537,6 +660,20 @@ fn part_case(
         counts.push("input:exact-frame".into());
     } else {
         counts.push("input:inexact-frame".into());
+    }
+    if stream.starts_with('s') || stream.starts_with('S') {
+        counts.push(format!("scaled:{}:2^{}", base, scale));
+        counts.push(format!(
+            "scaled:{}:{}",
+            algo,
+            if scale <= -127 { "f32-subnormal" } else if scale < -100 { "f32-tiny-normal" } else if scale < 0 { "small" } else { "large" }
+        ));
+        if cloud.pts.len() >= 16_384 {
+            counts.push("scaled:>=16384-points".into());
+        }
+        if let (Some((a, b)), Outcome::Ids(v)) = (cloud.tie, &reference) {
+            counts.push(if v[a] != v[b] { "lattice:pair-separated".to_string() } else { "lattice:pair-not-separated".to_string() });
+        }
     }
     if stream == "t" {
         counts.push(format!("tie:scale:2^{}", if shape == 0 { 0 } else { (shape - 1).min(20) }));
@@ -591,7 +728,7 @@ fn part_case(
                 }
             }
         };
-        counts.push(format!("frame-kind:{}:{}", stream, kind));
+        counts.push(format!("frame-kind:{}:{}", if scale == 0 { base } else { "scaled" }, kind));
     }
     if nframes > 1 && cloud.exact_frame {
         fail = Some((
@@ -875,6 +1012,82 @@ pub fn generate(ctx: &mut Ctx) {
             run_op(ctx, &format!("part {} t {} {} {} {} {} {} {} -", algo, dim, n, shape, wmode, seed, p1, p2));
         }
     }
+    // ---- the same comparisons at other coordinate SCALES ------------------------------
+    // 2^-149 * k (f32 subnormals: no spare bit, halving / rescaling a coordinate or a difference
+    // rounds and distinct coordinates tie), 2^-140, 2^-126 (the subnormal boundary), a few others and
+    // large scales; >= 16 384 points so that the number of blocks of the cut search depends on the pool.
+    {
+        let sizes = [16_384usize, 20_001, 32_769];
+        let main_scales = ["s149", "s140", "s126"];
+        let other_scales = ["s148", "s147", "s145", "s133", "s127", "s125", "s100", "s24", "s1", "S1", "S60", "S100"];
+        // the lattice of seed C06-r3-2's demonstration verbatim, then randomised lattices: Rcb
+        for (i, sc) in main_scales.iter().enumerate() {
+            run_op(ctx, &format!("part rcb sl{} 2 {} 0 0 0 1 1 -", &sc[1..], sizes[i]));
+        }
+        let mut c = 0usize;
+        for _ in 0..ctx.budget(24, 150) {
+            let algo = if c % 3 == 2 { "rcbf" } else { "rcb" };
+            let n = sizes[c % sizes.len()];
+            let sc = if c % 4 == 3 { *ctx.rng.pick(&other_scales) } else { main_scales[(c / 3) % 3] };
+            c += 1;
+            let dim = 2 + ctx.rng.usize(2);
+            let shape = 1 + ctx.rng.usize(12);
+            let wmode = *ctx.rng.pick(&[0usize, 0, 1, 3]);
+            let seed = ctx.rng.below(1 << 32);
+            let p1 = 1 + ctx.rng.usize(3);
+            let p2 = ctx.rng.usize(3);
+            run_op(ctx, &format!("part {} {}l{} {} {} {} {} {} {} {} -", algo, &sc[..1], &sc[1..], dim, n, shape, wmode, seed, p1, p2));
+        }
+        // every point partitioner on the generic / exact-frame / lattice clouds at these scales
+        for algo in ["rcb", "rcbf", "rib", "hilbert", "zcurve", "mj", "kmeans"] {
+            for k in 0..ctx.budget(4, 24) {
+                let sc = if k % 4 == 3 { *ctx.rng.pick(&other_scales) } else { main_scales[k % 4 % 3] };
+                let base = *ctx.rng.pick(&["g", "x", "x", "l"]);
+                let dim = 2 + ctx.rng.usize(2);
+                let n = if algo == "kmeans" { *ctx.rng.pick(&[1000usize, 2500, 5000]) } else { sizes[ctx.rng.usize(3)] };
+                let shape = match base {
+                    "g" => *ctx.rng.pick(&[0usize, 1, 2, 3, 3, 6]),
+                    "x" => ctx.rng.usize(9),
+                    _ => 1 + ctx.rng.usize(12),
+                };
+                let wmode = ctx.rng.usize(4);
+                let seed = ctx.rng.below(1 << 32);
+                let (p1, p2) = match algo {
+                    "rcb" | "rcbf" | "rib" => (1 + ctx.rng.usize(4), ctx.rng.usize(3)),
+                    "hilbert" => (2 + ctx.rng.usize(15), *ctx.rng.pick(&[4usize, 8, 12, 16])),
+                    "zcurve" => (2 + ctx.rng.usize(15), *ctx.rng.pick(if dim == 2 { &[2usize, 3, 4] } else { &[1usize, 2, 3] })),
+                    "mj" => (2 + ctx.rng.usize(19), 1 + ctx.rng.usize(4)),
+                    _ => (2 + ctx.rng.usize(5), ctx.rng.usize(36)),
+                };
+                run_op(ctx, &format!("part {} {}{}{} {} {} {} {} {} {} {} -", algo, &sc[..1], base, &sc[1..], dim, n, shape, wmode, seed, p1, p2));
+            }
+        }
+        // the cut search itself (hook) at these scales against the integer computation
+        for (e, mn, mx) in [(-149i64, 0i64, 8i64), (-149, -4, 12), (-148, 0, 8), (-140, 0, 8), (-126, 0, 8)] {
+            run_op(ctx, &format!("rcbsplits {} 11 16384 0 8 1 {} {}", e, mn, mx));
+        }
+        for k in 0..ctx.budget(30, 240) {
+            let e: i64 = match k % 5 {
+                0 | 1 => -149,
+                2 => *ctx.rng.pick(&[-148i64, -147, -146, -140]),
+                3 => *ctx.rng.pick(&[-133i64, -127, -126, -125]),
+                _ => *ctx.rng.pick(&[-100i64, -24, -1, 1, 60, 100]),
+            };
+            let n = match ctx.rng.usize(4) {
+                0 => 100 + ctx.rng.usize(4000),
+                _ => *ctx.rng.pick(&[16_384usize, 20_001, 32_769, 9000]),
+            };
+            let (lo, hi) = *ctx.rng.pick(&[(0i64, 8i64), (0, 20), (-7, 9), (0, 200), (-5000, 5000), (0, 3)]);
+            let wmax = *ctx.rng.pick(&[1i64, 9, 1000]);
+            // mostly multiples of 4 (exact targets even at 2^-149), now and then arbitrary
+            let q = if ctx.rng.chance(5, 6) { 4 } else { 1 };
+            let a = ctx.rng.range(lo - 3, hi + 3).div_euclid(q) * q;
+            let b = ctx.rng.range(lo - 3, hi + 3).div_euclid(q) * q;
+            let (mn, mx) = (a.min(b), a.max(b));
+            let seed = ctx.rng.below(1 << 32);
+            run_op(ctx, &format!("rcbsplits {} {} {} {} {} {} {} {}", e, seed, n, lo, hi, wmax, mn, mx));
+        }
+    }
     // ---- dual graph ----------------------------------------------------------
     for _ in 0..ctx.budget(8, 40) {
         let kind = *ctx.rng.pick(&["tri", "quad", "mixed", "hex", "tet"]);
@@ -918,6 +1131,13 @@ pub fn generate(ctx: &mut Ctx) {
         "part rcb g 4 10 0 0 1 1 1 -",
         "part rcb q 2 10 0 0 1 1 1 -",
         "part rib t 2 16384 0 0 1 1 1 -",
+        "part rcb sl150 2 16384 0 0 1 1 1 -",
+        "part rcb sq149 2 16384 0 0 1 1 1 -",
+        "part rcb S 2 16384 0 0 1 1 1 -",
+        "part rcb st10 2 16384 0 0 1 1 1 -",
+        "rcbsplits -150 1 10 0 5 1 0 4",
+        "rcbsplits -149 1 10 5 0 1 0 4",
+        "rcbsplits 0 1 10",
         "dual tri 3 3",
         "frame 4 100 1 0 -",
         "frame 2 100 1 99 -",
@@ -1160,7 +1380,7 @@ fn find_id_flip(pts: &[[i64; 3]], dim: usize, t_diff: usize, seed: u64, max_shuf
         // sensitive one first, until the time is used up)
         let Some((p, d)) = worst else { continue };
         tried += 1;
-        let cloud = Cloud { ws: vec![1; c.len()], exact_frame: false, pts: c, tie: None };
+        let cloud = Cloud { ws: vec![1; c.len()], exact_frame: false, pts: c, tie: None, scale: 0 };
         for (algo, p1, p2) in algos {
             let prm = Params { algo: algo.to_string(), p1, p2 };
             let reference = run_algo(&cloud, dim, &prm, 1);
@@ -1305,6 +1525,7 @@ pub fn run_op(ctx: &mut Ctx, op: &str) {
         Some("parsum") => op_parsum(ctx, op, &t),
         Some("bbox") => op_bbox(ctx, op, &t),
         Some("rcbsplit") => op_rcbsplit(ctx, op, &t),
+        Some("rcbsplits") => op_rcbsplit_scaled(ctx, op, &t),
         Some("mjsplit") => op_mjsplit(ctx, op, &t),
         Some("frame") => op_frame(ctx, op, &t),
         _ => bad(ctx, op),
@@ -1323,7 +1544,7 @@ fn op_part(ctx: &mut Ctx, op: &str, t: &[&str]) {
     let stream = t[2].to_string();
     if !(dim == 2 || dim == 3)
         || !["rcb", "rcbf", "rib", "hilbert", "zcurve", "mj", "kmeans"].contains(&algo.as_str())
-        || !(stream == "g" || stream == "x" || (stream == "t" && (algo == "rcb" || algo == "rcbf")))
+        || !(parse_stream(&stream).is_some() && (stream != "t" || algo == "rcb" || algo == "rcbf"))
         || n > 200_000
     {
         return bad(ctx, op);
@@ -1338,7 +1559,11 @@ fn op_part(ctx: &mut Ctx, op: &str, t: &[&str]) {
     match res {
         Caught::Ok(r) => {
             ctx.count(&format!("algo:{}", algo));
-            ctx.count(&format!("stream:{}:{}", stream, algo));
+            let skey = match parse_stream(&stream) {
+                Some((b, e)) if e != 0 || stream.len() > 1 => format!("scaled-{}", b),
+                _ => stream.clone(),
+            };
+            ctx.count(&format!("stream:{}:{}", skey, algo));
             ctx.count(&format!("dim:{}", dim));
             ctx.count(&format!("n:{}", if r.n < 4096 { "<4096" } else if r.n < 8192 { "4096..8191" } else { ">=8192" }));
             for c in &r.counts {
@@ -1583,10 +1808,29 @@ fn op_bbox(ctx: &mut Ctx, op: &str, t: &[&str]) {
     }
 }
 
+/// `rcbsplits <e> …`: `rcbsplit …` at scale 2^e.
+fn op_rcbsplit_scaled(ctx: &mut Ctx, op: &str, t: &[&str]) {
+    if t.len() != 9 {
+        return bad(ctx, op);
+    }
+    let Some(e) = t[1].parse::<i64>().ok().filter(|e| (-149..=100).contains(e)) else {
+        return bad(ctx, op);
+    };
+    let mut u = vec![t[0]];
+    u.extend_from_slice(&t[2..]);
+    rcbsplit_at(ctx, op, &u, e as i32)
+}
+
 fn op_rcbsplit(ctx: &mut Ctx, op: &str, t: &[&str]) {
+    rcbsplit_at(ctx, op, t, 0)
+}
+
+fn rcbsplit_at(ctx: &mut Ctx, op: &str, t: &[&str], e: i32) {
     if t.len() != 8 {
         return bad(ctx, op);
     }
+    let scaled = t.len() == 8 && op.starts_with("rcbsplits");
+    let unit = f64::powi(2.0, e);
     let pi = |i: usize| t[i].parse::<i64>().ok();
     let (Some(seed), Some(n), Some(lo), Some(hi), Some(wmax), Some(mn), Some(mx)) = (pi(1), pi(2), pi(3), pi(4), pi(5), pi(6), pi(7)) else {
         return bad(ctx, op);
@@ -1594,6 +1838,9 @@ fn op_rcbsplit(ctx: &mut Ctx, op: &str, t: &[&str]) {
     if n < 0 || n > 1_000_000 || lo > hi || lo < -(1 << 20) || hi > (1 << 20) || wmax < 1 || wmax > 1_000_000 || mn > mx || mn < -(1 << 20) || mx > (1 << 20) {
         return bad(ctx, op);
     }
+    // the targets min/2 + max/2 and min/2 + (that)/2 are exactly representable in f32: k * 2^e is a
+    // multiple of 2^-149 with few significant bits iff k * 2^(e + 149) is an integer
+    let exact_targets = e >= -147 || (mn % 4 == 0 && mx % 4 == 0);
     let coords = gen_ints(seed as u64, n as usize, lo, hi);
     let weights = gen_ints(seed as u64 ^ 0xabcdef, n as usize, 1, wmax);
     // oracle (independent of the model): one or two evaluations of the cut, on integers x4
@@ -1629,12 +1876,15 @@ fn op_rcbsplit(ctx: &mut Ctx, op: &str, t: &[&str]) {
         exp_pos4
     );
     let mut first_bad = None;
+    let mut lines_seen = std::collections::HashSet::new();
     let mut tie_variants = std::collections::HashSet::new();
     for &th in &pool_sizes(ctx.quick()) {
         for _ in 0..2 {
-            let cf: Vec<f32> = coords.iter().map(|c| *c as f32).collect();
+            // (e = 0: `unit` is 1 and these are the conversions `as f32` of the integers)
+            let cf: Vec<f32> = coords.iter().map(|c| (*c as f64 * unit) as f32).collect();
             let wv = weights.clone();
-            let r = in_pool(th, move || coupe::verif::rcb::par_rcb_split::<1>([cf], wv, 0, 1.0, mn as f32, mx as f32));
+            let (fmn, fmx) = ((mn as f64 * unit) as f32, (mx as f64 * unit) as f32);
+            let r = in_pool(th, move || coupe::verif::rcb::par_rcb_split::<1>([cf], wv, 0, 1.0, fmn, fmx));
             let line = match r {
                 Caught::Ok((ids, split, wl, pos)) => {
                     let left_ok = ids[..split].iter().all(|i| exp_piv.map(|p| coords[*i] < p).unwrap_or(true))
@@ -1653,13 +1903,14 @@ fn op_rcbsplit(ctx: &mut Ctx, op: &str, t: &[&str]) {
                             Some(p) => p.to_string(),
                             None => "none".into(),
                         },
-                        (pos * 4.0) as i64,
+                        (pos as f64 / unit * 4.0) as i64,
                         if left_ok && perm_ok { "" } else { " BAD-SETS" }
                     )
                 }
                 Caught::Panic(m) => format!("panic {}", m),
                 Caught::Hang => "hang".into(),
             };
+            lines_seen.insert(line.clone());
             if line != expect && first_bad.is_none() {
                 first_bad = Some(format!("T={}: {}", th, line));
             }
@@ -1671,13 +1922,35 @@ fn op_rcbsplit(ctx: &mut Ctx, op: &str, t: &[&str]) {
     if tie_variants.len() > 1 {
         ctx.count("rcbsplit:arrangement-differs-sets-equal");
     }
+    if scaled {
+        ctx.count("op:rcbsplits");
+        ctx.count(&format!("rcbsplits:{}", if e <= -127 { "f32-subnormal" } else if e < -100 { "f32-tiny-normal" } else if e < 0 { "small" } else { "large" }));
+        ctx.count(if exact_targets { "rcbsplits:targets-exact" } else { "rcbsplits:targets-round-not-judged" });
+        if !exact_targets {
+            // outside the contract (the targets round): all pools must still agree with each other
+            if lines_seen.len() > 1 {
+                let idx = ctx.record(op.to_string(), format!("differs-between-pools {}", lines_seen.len()), true);
+                ctx.fail(idx, "rcb-split-schedule-dependent", format!("{} different results across pools at scale 2^{}", lines_seen.len(), e));
+            } else {
+                ctx.record(op.to_string(), "unjudged targets-round".into(), false);
+            }
+            return;
+        }
+    }
     match first_bad {
         None => {
             ctx.record(op.to_string(), expect, n >= 2);
         }
         Some(b) => {
             let idx = ctx.record(op.to_string(), format!("differs {} (expected {})", b, expect), true);
-            ctx.fail(idx, "rcb-split-schedule-dependent", b);
+            if scaled && lines_seen.len() == 1 {
+                // every pool computes the same cut, but not the cut of the exact computation: the
+                // fold no longer is the modelled one (count of the points left of the target, nearest
+                // point on its right) although every operand is exactly representable at this scale
+                ctx.fail(idx, "rcb-split-differs-from-exact-cut-at-scale", format!("scale 2^{}: {} (expected {})", e, b, expect));
+            } else {
+                ctx.fail(idx, "rcb-split-schedule-dependent", b);
+            }
         }
     }
 }
